@@ -109,19 +109,20 @@ def pyEqDict : List String → List PyVal → List String → List PyVal → Boo
   | _, _, _, _ => true
 end
 
-/-- `v[i]` -/
-def getIdx (v : PyVal) (i : Int) : Except Err PyVal :=
+/-- `v[k]` for an index k ≥ 0 -/
+def getIdx (v : PyVal) (k : Nat) : Except Err PyVal :=
   match v with
-  | .tuple _ xs | .list _ xs =>
-    let n : Int := xs.length
-    let j := if i < 0 then i + n else i
-    if j < 0 ∨ j ≥ n then .error .index
-    else match xs[j.toNat]? with | some x => .ok x | Option.none => .error .index
-  | .str _ s =>
-    let n : Int := s.length
-    let j := if i < 0 then i + n else i
-    if j < 0 ∨ j ≥ n then .error .index else .ok (.str .tmp (String.singleton (s.toList.getD j.toNat ' ')))
+  | .tuple _ xs | .list _ xs => match xs[k]? with | some x => .ok x | Option.none => .error .index
+  | .str _ s => match s.toList[k]? with | some c => .ok (.str .tmp (String.singleton c)) | Option.none => .error .index
   | .dict .. => .error .key            -- only string keys are modelled; an int key is never present
+  | _ => .error .type
+
+/-- `v[-1]` -/
+def getLast (v : PyVal) : Except Err PyVal :=
+  match v with
+  | .tuple _ xs | .list _ xs => match xs.getLast? with | some x => .ok x | Option.none => .error .index
+  | .str _ s => match s.toList.getLast? with | some c => .ok (.str .tmp (String.singleton c)) | Option.none => .error .index
+  | .dict .. => .error .key
   | _ => .error .type
 
 /-- `v[:-1]` -/
@@ -327,11 +328,11 @@ def batchOrderPre (fx : Fixes) (pred : PyVal) (arg : Arg) (method : Nat) : Excep
     let allD ← allDicts pred
     let isDictCol := pred.isDict
     let isDictColKw ← (if allD then do
-        let a ← getIdx pred 0; let b ← getIdx pred (-1)
+        let a ← getIdx pred 0; let b ← getLast pred
         let e ← keysEq a b
         pure (!e && pred.len == 2 && (!fx.rowdict || isHint a)) else pure false)
     let isDictRow ← (if allD then do
-        let a ← getIdx pred 0; let b ← getIdx pred (-1)
+        let a ← getIdx pred 0; let b ← getLast pred
         keysEq a b else pure false)
     if isDictCol || isDictColKw then pure (some .col)
     else if isDictRow then pure (some .row)
@@ -363,8 +364,8 @@ def probeMade (fx : Fixes) (pred : PyVal) (arg : Arg) (method : Nat) : Bool :=
 /-- `has_kwargs` -/
 def hasKwargs (pred : PyVal) (lay : BLayout) : Bool :=
   let last := match lay with
-    | .row => (do let r ← getIdx pred 0; getIdx r (-1))
-    | _ => getIdx pred (-1)
+    | .row => (do let r ← getIdx pred 0; getLast r)
+    | _ => getLast pred
   match last with | .ok v => v.isDict | .error _ => false
 
 def firstOfEach : List PyVal → Except Err (List PyVal)
@@ -566,7 +567,7 @@ def rowBody (p : PyVal) : Except Err PyVal := do
   if n = 2 then getIdx p 0 else dropLast p
 
 def parseNot (st : State) (f : PFmt) (actions : List PyVal) (pred : PyVal) : Except Err (Result × Nat) := do
-  let kwargs ← (if st.hasKw then getIdx pred (-1) else pure (.dict .tmp [] []))
+  let kwargs ← (if st.hasKw then getLast pred else pure (.dict .tmp [] []))
   let pred ← (if st.hasKw then do let n ← lenE pred; if n = 2 then getIdx pred 0 else pure pred else pure pred)
   let pred ← (if f.star then firstValue pred else pure pred)
   match f.kind with
@@ -586,7 +587,7 @@ def parseNot (st : State) (f : PFmt) (actions : List PyVal) (pred : PyVal) : Exc
 
 def parseRow (st : State) (f : PFmt) (rows : List (List PyVal)) (pred : PyVal) : Except Err (Result × Nat) := do
   let ps ← itemsE pred
-  let kws ← (if st.hasKw then mapE (fun p => getIdx p (-1)) ps else pure (ps.map (fun _ => PyVal.dict .tmp [] [])))
+  let kws ← (if st.hasKw then mapE (fun p => getLast p) ps else pure (ps.map (fun _ => PyVal.dict .tmp [] [])))
   let kwargs ← kwColumns kws
   let (body, bodyV) ← (if st.hasKw then do let b ← mapE rowBody ps; pure (b, PyVal.list .tmp b) else pure (ps, pred))
   let (body, bodyV) ← (if f.star then do let b ← mapE firstValue body; pure (b, PyVal.list .tmp b) else pure (body, bodyV))
@@ -600,7 +601,7 @@ def parseRow (st : State) (f : PFmt) (rows : List (List PyVal)) (pred : PyVal) :
     pure (⟨A, P, kwargs⟩, st.rng)
 
 def parseCol (fx : Fixes) (st : State) (f : PFmt) (rows : List (List PyVal)) (pred : PyVal) : Except Err (Result × Nat) := do
-  let kwargs ← (if st.hasKw then getIdx pred (-1) else pure (.dict .tmp [] []))
+  let kwargs ← (if st.hasKw then getLast pred else pure (.dict .tmp [] []))
   let pred ← (if st.hasKw then dropLast pred else pure pred)
   let pred ← (if f.star then do
       let d ← (if fx.col && !pred.isDict then getIdx pred 0 else pure pred)
@@ -729,7 +730,7 @@ deriving Repr
 /-- `_method2` for learn: `method(*a, **{k:v[i] for k,v in kwargs.items()})` for the i-th row -/
 def learnRows : Nat → List PyVal → List PyVal → List PyVal → List PyVal → List String → List PyVal → Except Err (List LearnCall)
   | i, c :: cs, a :: as, r :: rs, p :: ps, ks, vs => do
-    let kv ← mapE (fun v => getIdx v (i : Int)) vs
+    let kv ← mapE (fun v => getIdx v i) vs
     let rest ← learnRows (i + 1) cs as rs ps ks vs
     pure (⟨c, a, r, p, ks, kv⟩ :: rest)
   | _, _, _, _, _, _, _ => pure []
